@@ -39,7 +39,9 @@ checks["C01"] = dict(
         quick=[H("HarnessCrash", crash(2, 1, opset=1), shards=14, depth=8),
                H("HarnessCrash", crash(1, 1), shards=8, depth=8),
                H("HarnessCrash", crash(1, 2, opset=1, crashkind=1, usability=0), shards=8, depth=8),
-               H("HarnessCrash", crash(1, 1, armopen=1, opset=1, seg=64), shards=4, depth=8)],
+               H("HarnessCrash", crash(1, 1, armopen=1, opset=1, seg=64), shards=4, depth=8),
+               H("HarnessCrash", crash(1, 1, pre=1, seg=256, opset=1), shards=6, depth=8),
+               H("HarnessCrash", crash(1, 1, pre=2, seg=128, opset=4), shards=6, depth=8)],
         thorough=[H("HarnessCrash", crash(2, 1), shards=42, depth=8, timeout="40m"),
                   H("HarnessCrash", crash(2, 1, seg=64), shards=42, depth=8, timeout="40m"),
                   H("HarnessCrash", crash(1, 2, armopen=1, opset=3), shards=56, depth=8, timeout="60m"),
@@ -57,7 +59,9 @@ checks["C02"] = dict(
     runs=dict(
         quick=[H("HarnessCrash", crash(1, 2, opset=1, usability=0), shards=14, depth=8),
                H("HarnessCrash", crash(2, 1, opset=1), shards=14, depth=8),
-               H("HarnessCrash", crash(1, 1, opset=2), shards=4, depth=8)],
+               H("HarnessCrash", crash(1, 1, opset=2), shards=4, depth=8),
+               H("HarnessCrash", crash(1, 1, pre=1, seg=256, opset=1), shards=6, depth=8),
+               H("HarnessCrash", crash(1, 1, pre=2, seg=128, opset=4), shards=6, depth=8)],
         thorough=[H("HarnessCrash", crash(2, 1), shards=42, depth=8, timeout="40m"),
                   H("HarnessCrash", crash(1, 2, opset=1, pre=1, seg=128), shards=28, depth=8, timeout="40m"),
                   H("HarnessCrash", crash(1, 2, armopen=1, opset=3), shards=56, depth=8, timeout="60m"),
@@ -292,15 +296,20 @@ checks["C11"] = dict(
                H("HarnessGarbageTail", {"maxchunks": 7}, pkg="harness/hseg", shards=4, depth=4),
                H("HarnessGarbageSealed", {"maxchunks": 5}, pkg="harness/hseg", shards=8, depth=4),
                H("HarnessDump", {"maxchunks": 7}, pkg="harness/hseg", shards=2, depth=3),
-               H("HarnessOpenDamaged", {}, pkg="harness/hseg")],
-        thorough=[H("HarnessDecode", {"maxlen": 12}, pkg="harness/hcodec", shards=28, depth=5, timeout="30m"),
+               H("HarnessOpenDamaged", {}, pkg="harness/hseg"),
+               H("HarnessMutatedFile", {"sealed": 1}, pkg="harness/hseg", shards=8, depth=3),
+               H("HarnessMutatedFile", {"sealed": 0}, pkg="harness/hseg", shards=8, depth=3)],
+        thorough=[H("HarnessMutatedFile", {"sealed": 1}, pkg="harness/hseg", shards=8, depth=3),
+                  H("HarnessMutatedFile", {"sealed": 0}, pkg="harness/hseg", shards=8, depth=3),
+                  H("HarnessGarbageSealed", {"maxchunks": 6}, pkg="harness/hseg", shards=14, depth=4, timeout="40m"),
+                  H("HarnessDecode", {"maxlen": 12}, pkg="harness/hcodec", shards=28, depth=5, timeout="30m"),
                   H("HarnessDecodeMutated", {}, pkg="harness/hcodec", shards=14, depth=4),
                   H("HarnessGarbageTail", {"maxchunks": 10}, pkg="harness/hseg", shards=28, depth=5, timeout="30m"),
                   H("HarnessGarbageSealed", {"maxchunks": 8}, pkg="harness/hseg", shards=28, depth=5, timeout="30m"),
                   H("HarnessDump", {"maxchunks": 10}, pkg="harness/hseg", shards=8, depth=4),
                   H("HarnessOpenDamaged", {}, pkg="harness/hseg")]),
-    required_reach=["decode-error", "mutated-decoded", "garbage-tail-checked", "garbage-sealed-checked", "dump-checked", "open-failed", "sealed-missing", "sealed-truncated", "sealed-foreign-header"],
-    bounds=dict(quick="Decode of every buffer of <=8 symbolic bytes and of a valid encoding with one symbolic byte overwritten / truncated anywhere; tail and sealed segment files of <=56 / <=40 arbitrary (symbolic) bytes under arbitrary SegmentInfo (MinIndex, MaxIndex, IndexStart, SizeLimit symbolic), DumpSegment over <=56 arbitrary bytes; wal.Open with a sealed segment missing / truncated below its header / carrying another segment's header / one header byte changed / arbitrary metadata fields / one I/O fault, asserting error + released handles",
+    required_reach=["decode-error", "mutated-decoded", "garbage-tail-checked", "garbage-sealed-checked", "dump-checked", "mutated-file-checked", "open-failed", "sealed-missing", "sealed-truncated", "sealed-foreign-header"],
+    bounds=dict(quick="Decode of every buffer of <=8 symbolic bytes and of a valid encoding with one symbolic byte overwritten / truncated anywhere; tail and sealed segment files of <=56 / <=40 arbitrary (symbolic) bytes under arbitrary SegmentInfo (MinIndex, MaxIndex, IndexStart, SizeLimit symbolic), DumpSegment over <=56 arbitrary bytes; a valid sealed / unsealed image (two batches, three entries) with any 4-aligned word overwritten by 4 symbolic bytes, then Open/RecoverTail and GetLog of every index; wal.Open with a sealed segment missing / truncated below its header / carrying another segment's header / one header byte changed / arbitrary metadata fields / one I/O fault, asserting error + released handles",
                 thorough="Decode buffers <=12 bytes, files <=80 / <=64 bytes"),
     assumptions=COMMON_ASSUME + ["panics are the engine's implicit Go checks (index, slice bounds, nil dereference, division) made feasible by the solver; hangs are bounded by the per-path instruction budget (20M instructions: an unwinding failure is reported, not passed)"],
     outside=["larger arbitrary files", "allocation sizes read from a frame header with more than 64 feasible values end the path as cut (the code bounds them by MaxEntrySize before allocating; counted in evidence)", "arbitrary bytes in wal-meta.db itself (bbolt)"],
